@@ -80,8 +80,8 @@ func x25519Public(priv []byte) ([]byte, error) {
 var rsaPoolJSON []byte
 
 type rsaEntry struct {
-	Index                      int
-	Bits, E                    int
+	Index                    int
+	Bits, E                  int
 	N, D, P, Q, DP, DQ, QInv []byte // minimal big-endian
 }
 
